@@ -98,7 +98,7 @@ def _fix_samples(dump):
 
 def generate(rng, index, tier):
     dumps = []
-    for _ in range(rng.randint(1, 2)):
+    for _dn in range(rng.randint(1, 2)):
         d = worlds.gen_dump(rng, version=rng.pick([2, 2, 3]), nthreads=rng.randint(1, 3),
                             mix={'bsd': 3, 'path': 4, 'mach': 2, 'tracedom': 2, 'perf': 2, 'dyld': 3, 'turnstile': 1, 'lookup': 1,
                                  'gstr': 1}, declare_all=True, logs=False)
@@ -120,7 +120,9 @@ def generate(rng, index, tier):
         if d.get('born') and rng.chance(0.35):
             d['writer']['tmap'] = []          # a dump without any thread map: everything is learned in-stream
         # a dump cut at both ends: orphan ENDs at the start, unfinished STARTs at the end, lost records
-        if rng.chance(0.4):
+        # (not together with a thread announced in-stream: losing the announcement would leave a sampler record that a class
+        #  filter removes as the only declaration of that thread, and the filtered and unfiltered runs then differ by design)
+        if not d.get('born') and rng.chance(0.4):
             nrec = sum(len(x) for x in worlds.kernel.expand_threads(d['threads'], worlds.catalog()['ids']))
             fl = []
             for _f in range(rng.randint(1, 3)):
@@ -134,14 +136,22 @@ def generate(rng, index, tier):
                 else:
                     fl.append({'k': 'tail', 'n': rng.randint(1, max(1, nrec // 3))})
             d['faults'] = fl
+        if rng.chance(0.2):
+            old = d['threads'][0]['tid']
+            d['threads'][0]['tid'] = 0          # thread id 0
+            for t in d['writer'].get('tmap', []):
+                if t[0] == old:
+                    t[0] = 0
         _fix_samples(d)
         dumps.append(d)
     hist = []
     for _ in range(rng.randint(2, 6)):
         r = rng.random()
         di = rng.randrange(len(dumps))
-        if r < 0.3:
+        if r < 0.25:
             hist.append({'op': 'set', 'filters': _gen_filters(rng, dumps[di])})
+        elif r < 0.3:
+            hist.append({'op': 'mutate', 'how': rng.pick(['append', 'remove']), 'value': rng.pick([4, 1, 0x1f, 7, 3])})
         elif r < 0.7:
             hist.append({'op': 'request', 'dump': di, 'what': rng.pick(['traces', 'traces', 'formatted_traces']), 'repeat': rng.chance(0.5)})
         elif r < 0.85:
@@ -212,6 +222,19 @@ def execute(scn):
     shapes = set()
     nontrivial = False
     for h in scn['history']:
+        if h['op'] == 'mutate':
+            # the caller edits its own class list in place between requests
+            if isinstance(p.filter_class, list) and (p.filter_class or p.filter_subclass):
+                if h['how'] == 'append':
+                    p.filter_class.append(h['value'])
+                elif p.filter_class:
+                    p.filter_class.pop(0)
+                cur = dict(cur)
+                cur['cls'] = list(p.filter_class)
+                cur['as_tuple'] = False
+                bump('fault:reconfigure')
+                bump('filter_list_edited_in_place')
+            continue
         if h['op'] == 'set':
             cur = h['filters']
             apply_filters(p, cur)
